@@ -38,6 +38,8 @@ func main() {
 		gossipCmd(out, *seed, *tier)
 	case "hyperb":
 		hyperbCmd(out, *seed, *tier)
+	case "clientv":
+		clientvCmd(out, *seed, *tier)
 	default:
 		fmt.Fprintln(os.Stderr, "unknown command", cmd)
 		os.Exit(2)
